@@ -98,7 +98,11 @@ def run(ctx):
     pool_inputs = ['a b', '(', 'a &&', 'a $(b $(c)) d', 'a <<E\nx\nE\n', 'a )', 'a "b', 'if a; then b; fi', 'a\nb (', 'a <<E', 'select x in a; do b; done',
                    'case x in a) b;; esac', 'a | b && c', "a 'b c' $d", 'a `b`', 'xyzq%+,@'] + common.random_scripts(seed, 12 if quick else 100, mutate=1)
     pool = [('parse', {}, s) for s in pool_inputs if all(ord(c) < 128 for c in s)] + [('split', {}, 'a "b c" d'), ('single', dict(convertpos=True), 'a b\nc')]
-    solo = {json.dumps(p, sort_keys=True): canon.norm_outcome(canon_run_nosignal(bl, p)) for p in pool}
+    # "run alone" = the same call in a fresh interpreter (one process per pool call)
+    import multiprocessing as mp
+    from propchecks.c18 import fresh_outcome
+    with mp.Pool(16) as mpool:
+        solo = dict(zip([json.dumps(p, sort_keys=True) for p in pool], mpool.map(fresh_outcome, [list(p) for p in pool])))
     # the model agrees with the solo outcomes (ties the interleaving theorem to these calls)
     corr_broken = []
     for p, rep in zip(pool, runner.model_batch([runner.req_line(*p) for p in pool])):
